@@ -32,8 +32,8 @@ ASSUMPTIONS = [
     "with -n the lots must still cover the disposals (otherwise the run fails: C02), so -n mutants overdraw one account while another holds the coins",
 ]
 SETTINGS: Dict[str, Dict[str, Any]] = {
-    "quick": {"cases": 2000, "cli_cases": 48, "budget_s": 45, "minimums": {"accounts_checked": 8000, "nontrivial": 800, "negative_runs": 100, "cli_runs": 5}},
-    "thorough": {"cases": 80000, "cli_cases": 150, "budget_s": 300, "minimums": {"accounts_checked": 300000, "nontrivial": 30000, "negative_runs": 4000, "cli_runs": 100}},
+    "quick": {"cases": 2000, "cli_cases": 48, "budget_s": 45, "minimums": {"corpus_runs": 100, "accounts_checked": 8000, "nontrivial": 800, "negative_runs": 100, "cli_runs": 5}},
+    "thorough": {"cases": 80000, "cli_cases": 150, "budget_s": 300, "minimums": {"corpus_runs": 100, "accounts_checked": 300000, "nontrivial": 30000, "negative_runs": 4000, "cli_runs": 100}},
 }
 PROFILES = [
     Profile(n_exchanges=2, n_holders=2, p_intra=0.35, p_self_transfer=0.1, max_events=20, min_events=5),
@@ -94,6 +94,9 @@ def _observe(ctx: Any, ip: Any, hist: Dict[str, Any], sched: Dict[int, str], to_
 
 
 def run_shard(ctx: Any) -> None:
+    from rpv.checks import corpus_slice
+
+    corpus_slice.run(ctx, PROPERTY_ID)  # the repository's own example inputs, every method and the config's schedule
     ip = get_ip(ctx)
     settings = SETTINGS[ctx.tier]
     share = ctx.share(settings["cases"])
@@ -123,6 +126,11 @@ def run_shard(ctx: Any) -> None:
 
 
 def replay(ctx: Any, case: Dict[str, Any]) -> None:
+    if case.get("corpus"):
+        from rpv.checks import corpus_slice
+
+        corpus_slice.replay(ctx, PROPERTY_ID, case)
+        return
     if case.get("cli"):
         from rpv.checks import cli_slices
 
